@@ -70,6 +70,14 @@ class Builder:
         assert len(ns) == ARITY[t], (t, ns)
         self.cells.append((t, list(ns)))
 
+    def compact(self):
+        """drop nodes no cell uses"""
+        used = sorted(set(n for _, ns in self.cells for n in ns))
+        new = {n: i for i, n in enumerate(used)}
+        self.coords = [self.coords[n] for n in used]
+        self.coord2n = {c: i for i, c in enumerate(self.coords)}
+        self.cells = [(t, [new[n] for n in ns]) for t, ns in self.cells]
+
 
 def grid2d(b, rng, nx, ny, kind, origin=(0, 0, 0)):
     ox, oy, oz = origin
@@ -183,6 +191,63 @@ def label(b, rng, id_mode, shuffle_nodes=True, shuffle_elems=True, n_unref=0, bl
 
 
 KINDS = ['tri', 'quad', 'mixed2d', 'tet', 'hex', 'mixed3d', 'tet2', 'hex2', 'mixed3d2']
+# connectivity-only kinds (geometry is NOT consistent: graph matrices only):
+# second-order elements that touch only at a mid-side node, and a first-order
+# element hanging on a second-order edge
+NONCONFORMING = ['nonconf_tet2', 'nonconf_hex2', 'hanging']
+
+
+def gen_nonconforming(rng, kind):
+    b = Builder()
+    base = 'hex' if kind == 'nonconf_hex2' else 'tet'
+    ncomp = 2 if base == 'hex' else rng.choice([2, 3])
+    for comp in range(ncomp):
+        n0 = len(b.cells)
+        if kind == 'hanging' and comp == ncomp - 1:
+            grid3d(b, rng, 1, 1, 1, rng.choice(['tet', 'hex']), (40 * comp, 0, 0))
+        else:
+            grid3d(b, rng, 1, 1, 1, base, (40 * comp, 0, 0))
+        # keep the meshes small: one or two tets of the six per cell
+        if len(b.cells) - n0 > 2:
+            keep = rng.sample(range(n0, len(b.cells)), rng.randint(1, 2))
+            b.cells = b.cells[:n0] + [b.cells[i] for i in sorted(keep)]
+    b.compact()
+    n_first = None
+    if kind == 'hanging':
+        # only the cells of the last component stay first order
+        last = [i for i, (t, ns) in enumerate(b.cells)
+                if all(b.coords[n][0] >= 40 * (ncomp - 1) for n in ns)]
+        keep = set(last)
+        cells = list(b.cells)
+        b.cells = [c for i, c in enumerate(cells) if i not in keep]
+        to_second_order(b, rng, 1.0)
+        b.cells += [cells[i] for i in sorted(keep)]
+    else:
+        to_second_order(b, rng, 1.0)
+    # components (by x range) and one glue step between consecutive ones:
+    # identify a mid-side node of one with a mid-side node (or, for a
+    # first-order cell, a corner) of the next -> they touch ONLY there
+    def comp_of(cell):
+        return b.coords[cell[1][0]][0] // 40
+    ncorner = {'tet2': 4, 'hex2': 8}
+    for comp in range(ncomp - 1):
+        A = [c for c in b.cells if comp_of(c) == comp and c[0] in ncorner]
+        B = [c for c in b.cells if comp_of(c) == comp + 1]
+        if not A or not B:
+            continue
+        ca = rng.choice(A)
+        a = rng.choice(ca[1][ncorner[ca[0]]:])
+        cb = rng.choice(B)
+        if cb[0] in ncorner:
+            x = rng.choice(cb[1][ncorner[cb[0]]:])
+        else:
+            x = rng.choice(cb[1])
+        for c in b.cells:
+            if comp_of(c) == comp + 1:
+                c[1][:] = [a if n == x else n for n in c[1]]
+    return b
+
+
 
 
 def gen_mesh(rng, kind=None, max_nodes=26, id_mode=None, components=None, n_unref=None):
@@ -191,6 +256,16 @@ def gen_mesh(rng, kind=None, max_nodes=26, id_mode=None, components=None, n_unre
     components = components if components is not None else rng.choice([1, 1, 1, 2, 3])
     if n_unref is None:
         n_unref = rng.choice([0, 0, 0, 1, 2])
+    if kind in NONCONFORMING:
+        b = gen_nonconforming(rng, kind)
+        shuffle_nodes = rng.random() < 0.8
+        shuffle_elems = rng.random() < 0.8
+        m = label(b, rng, id_mode, shuffle_nodes, shuffle_elems, 0,
+                  block_order=rng.choice(['first-seen', 'shuffled']))
+        m['tags'] = {'kind': kind, 'ids': id_mode, 'components': 1, 'unref': 'glued-away',
+                     'shuffle_nodes': shuffle_nodes, 'shuffle_elems': shuffle_elems,
+                     'n_types': len(m['blocks'])}
+        return m
     for _ in range(200):
         b = Builder()
         for comp in range(components):
